@@ -153,6 +153,9 @@ def canon_generic(v):
     def ser(o, depth=0):
         if depth > 8:
             raise env.HarnessError('canon: object graph too deep')
+        if isinstance(o, AnsiStr):
+            # (an AnsiStr IS a str: look at it before the scalar case) payload + content
+            return ('AnsiStr', str.__str__(o), ser(o.__dict__.get('_s'), depth + 1))
         if o is None or isinstance(o, (bool, int, str, float)):
             return o
         if isinstance(o, AnsiSetting):
@@ -164,8 +167,6 @@ def canon_generic(v):
             return tuple(ser(x, depth + 1) for x in o)
         if isinstance(o, dict):
             return ('D',) + tuple((k, ser(o[k], depth + 1)) for k in sorted(o))
-        if isinstance(o, AnsiStr):
-            return ('AnsiStr', ser(o._s, depth + 1))
         d = getattr(o, '__dict__', None)
         if d is not None:
             return (type(o).__name__,) + tuple((k, ser(d[k], depth + 1)) for k in sorted(d)
